@@ -557,7 +557,7 @@ def required_labels(tier):
 
 def phases(tier, seed):
     os.makedirs(os.path.join(ROOT, '.work'), exist_ok=True)
-    n = 4800 if tier == 'quick' else 64000
+    n = 19200 if tier == 'quick' else 64000
     return [
         Enum('documented-exclusions', exclusion_grid, exhaustive=True, note='every documented exclusion spelled out'),
         Enum('serializer-validation', serializer_grid, exhaustive=True,
